@@ -169,6 +169,16 @@ def run(ctx):
         ctx.violation(k, f"{c}: {msg}", {"case": c})
     # ---- T -----------------------------------------------------------------------------
     cases = runbank.base_cases(ctx) + ion_constructs(ctx, cfgt) + like_charge_constructs(ctx) + runbank.kit_cases(ctx, every=1 if ctx.thorough() else 5)
+    # parameter files that change the desolvation model but none of the configured bounds
+    from . import c02
+    variants = {"allow005": {"desolvationAllowance": 0.05}, "allow015": {"desolvationAllowance": 0.15},
+                "allow040": {"desolvationAllowance": 0.40}, "nmin": {"Nmin": 200, "Nmax": 400},
+                "prefactor": {"desolvationPrefactor": -10.0, "desolvationSurfaceScalingFactor": 0.5}}
+    for tag, ov in variants.items():
+        pf = c02.param_file(ov, "c16_" + tag)
+        for n in (["1HPX"] if not ctx.thorough() else ["1HPX", "1FTJ-Chain-A", "3SGB"]):
+            cases.append((f"{n} [{tag}]", C.test_pdb_text(n), ["-p", pf]))
+        cases.append((f"frag-1HPX-A40+30 [{tag}]", C.join(C.chain_lines("1HPX", "A", 40, 30) + [C.TER]), ["-p", pf]))
     recs, metas, _ = runbank.run_and_record(ctx, cases)
     texts = {c[0]: c for c in cases}
     ndet = 0
